@@ -89,6 +89,15 @@ def group_level(R, base, names, prefix, labels, kinds=('$', '><'), p_share=0.0):
     if any(o > 4 for _, _, o in up.edges(data='order')):
         return None
     upnames = {g: '%s%d' % (prefix, g) for g in range(k)}
+    # a fragment name may be reused on another level: some groups take the name of one of their members
+    taken = set(upnames.values())
+    for g in range(k):
+        if R.chance(0.3):
+            cand = names[R.choice(sorted(n for n in nodes if owner[n] == g))]
+            if cand not in taken:
+                taken.discard(upnames[g])
+                upnames[g] = cand
+                taken.add(cand)
     defs = []
     for g in range(k):
         defs.append('#%s=%s' % (upnames[g], write_cg_fragment(R, subs[g], subnames, desc[g])))
@@ -232,7 +241,7 @@ def gen_fragset_string(R, tier, all_atom=None):
 # ----------------------------------------------------------------------------------------
 # combined
 # ----------------------------------------------------------------------------------------
-def gen_cut_string(R, tier, min_frags=1, with_levels=0, classes=None):
+def gen_cut_string(R, tier, min_frags=1, with_levels=0, classes=None, weights=False, shared_atoms=False):
     big = (tier == 'thorough') and R.chance(0.3)
     m, cname = molgen.gen_mol_class(R, big=big, classes=classes)
     fclass = R.choice(['one', 'two', 'few', 'many'])
@@ -241,15 +250,37 @@ def gen_cut_string(R, tier, min_frags=1, with_levels=0, classes=None):
     hi = max(hi, lo)
     owner = molgen.partition(R, m, max_frags=hi, min_frags=lo)
     feats = {'mol:' + cname}
-    s, info = molgen.build_cgsmiles(R, m, owner, style=molgen.style_draw(R), feats=feats)
+    annot = None
+    if weights:
+        annot = {i: R.choice(['0.5', '2', 'w=0.25', '0', 'foo=bar', '3;foo=x']) for i in range(len(m.atoms)) if R.chance(0.35)}
+    if shared_atoms:
+        s, info = molgen.build_shared(R, m, owner, share=R.choice([0.4, 0.8]), style=molgen.style_draw(R), feats=feats)
+        if s is not None and info['nshared']:
+            feats.add('shared_atoms_at_atomistic_level')
+    else:
+        s, info = molgen.build_cgsmiles(R, m, owner, style=molgen.style_draw(R), feats=feats, annot=annot or None)
     if s is None:
         return None
     nfr = info['nfr']
     feats.add('frags:%s' % (nfr if nfr < 4 else '4+'))
     case = dict(input=s, last_all_atom=True, legacy=True, kind='cut', dedicated=True, model=m.to_json(),
                 nfr=nfr, nlevels=1, two_level=s)
+    if annot:
+        feats.add('annotated_atoms')
+        exp = []
+        for i, a in annot.items():
+            want = {}
+            for ent in a.split(';'):
+                if '=' in ent:
+                    k_, v_ = ent.split('=')
+                    want['weight' if k_ == 'w' else k_] = float(v_) if k_ == 'w' else v_
+                else:
+                    want['weight'] = float(ent)
+            want.setdefault('weight', 1.0)
+            exp.append([list(info['posmap'][i]), want])
+        case['expect_annotations'] = exp
     if with_levels:
-        r = add_levels(R, info, with_levels, p_share=R.choice([0.0, 0.0, 0.3, 0.6]))
+        r = add_levels(R, info, with_levels, p_share=R.choice([0.0, 0.0, 0.3, 0.6]) if not shared_atoms else R.choice([0.3, 0.6, 1.0]))
         if r is None:
             return None
         s2, blocks, groups, nshared = r
@@ -263,10 +294,74 @@ def gen_cut_string(R, tier, min_frags=1, with_levels=0, classes=None):
     return case
 
 
+def gen_multicut_model(R):
+    """two chains joined by 2-3 cross bonds of which exactly one is double or triple (a ring cut
+    several times with mixed orders); returns (molecule, owner)"""
+    m = molgen.Mol()
+    na, nb = R.randint(2, 5), R.randint(2, 5)
+    A = [m.add_atom(R.choice(['C', 'C', 'C', 'N'])) for _ in range(na)]
+    B = [m.add_atom(R.choice(['C', 'C', 'C', 'N'])) for _ in range(nb)]
+    for x in (A, B):
+        for i in range(1, len(x)):
+            m.add_bond(x[i - 1], x[i], 1)
+    k = R.choice([2, 2, 3])
+    pa = R.sample(A, min(k, na))
+    pb = R.sample(B, min(k, nb))
+    pairs = list(zip(pa, pb))
+    special = R.randrange(len(pairs))
+    for i, (a, b) in enumerate(pairs):
+        o = 1
+        if i == special:
+            o = min(m.free(a), m.free(b), R.choice([2, 2, 3]))
+            o = max(o, 1)
+        if m.free(a) >= o and m.free(b) >= o:
+            m.add_bond(a, b, o)
+    # decorate
+    for _ in range(R.randint(0, 3)):
+        c = [i for i in range(len(m.atoms)) if m.free(i) >= 1]
+        if not c:
+            break
+        x = m.add_atom(R.choice(['C', 'O', 'N', 'F', 'Cl']))
+        m.add_bond(R.choice(c), x, 1)
+    owner = [0 if i in A else 1 if i in B else None for i in range(len(m.atoms))]
+    for i in range(len(m.atoms)):
+        if owner[i] is None:
+            owner[i] = owner[m.nbrs(i)[0]]
+    return m, owner
+
+
+def gen_multicut_string(R, tier):
+    m, owner = gen_multicut_model(R)
+    if len(set(owner)) < 2 or not any(owner[min(b)] != owner[max(b)] for b in m.bonds):
+        return None
+    feats = {'mol:multicut'}
+    s, info = molgen.build_cgsmiles(R, m, owner, style=molgen.style_draw(R), feats=feats)
+    if s is None:
+        return None
+    return dict(input=s, last_all_atom=True, legacy=True, kind='multicut', dedicated=True, model=m.to_json(),
+                nfr=info['nfr'], nlevels=1, two_level=s, features=sorted(feats | {'frags:2'}))
+
+
+def gen_shared_string(R, tier):
+    m, cname = molgen.gen_mol_class(R)
+    owner = molgen.partition(R, m, max_frags=R.choice([2, 3, 5]), min_frags=2)
+    feats = {'mol:' + cname}
+    s, info = molgen.build_shared(R, m, owner, share=R.choice([0.4, 0.8, 1.0]), style=molgen.style_draw(R), feats=feats)
+    if s is None:
+        return None
+    feats.add('shared_atoms:%d' % min(info['nshared'], 3))
+    return dict(input=s, last_all_atom=True, legacy=True, kind='shared', dedicated=True, model=m.to_json(),
+                nfr=info['nfr'], nlevels=1, two_level=s, features=sorted(feats))
+
+
 def gen_resolvable(R, tier, kinds=('cut', 'levels', 'fragset')):
     kind = R.choice(kinds)
+    if kind == 'multicut':
+        return gen_multicut_string(R, tier)
+    if kind == 'shared':
+        return gen_shared_string(R, tier)
     if kind == 'cut':
         return gen_cut_string(R, tier)
     if kind == 'levels':
-        return gen_cut_string(R, tier, min_frags=2, with_levels=R.choice([1, 1, 2, 3]))
+        return gen_cut_string(R, tier, min_frags=2, with_levels=R.choice([1, 1, 2, 3]), shared_atoms=R.chance(0.25))
     return gen_fragset_string(R, tier)
